@@ -45,9 +45,12 @@ type ProjectRunner struct {
 	doneProcMutex     sync.Mutex
 	doneProcesses     map[string]*Process
 	logger            pclog.PcLogger
+	loggerMtx         sync.Mutex
 	waitGroup         sync.WaitGroup
 	exitCode          int
+	exitCodeMtx       sync.Mutex
 	projectState      *types.ProjectState
+	projectStateMtx   sync.Mutex
 	mainProcess       string
 	mainProcessArgs   []string
 	isTuiOn           bool
@@ -59,12 +62,61 @@ type ProjectRunner struct {
 }
 
 func (p *ProjectRunner) GetLexicographicProcessNames() ([]string, error) {
+	p.procConfMutex.Lock()
+	defer p.procConfMutex.Unlock()
 	return p.project.GetLexicographicProcessNames()
 }
 
 func (p *ProjectRunner) init() {
 	p.initProcessStates()
 	p.initProcessLogs()
+	// start requests may arrive while Run() is starting up
+	p.logger = pclog.NewNilLogger()
+}
+
+// The process configurations of the project are read by every request and changed by
+// scale and update requests: all access goes through these helpers.
+
+func (p *ProjectRunner) getProcessConfig(name string) (types.ProcessConfig, bool) {
+	p.procConfMutex.Lock()
+	defer p.procConfMutex.Unlock()
+	conf, ok := p.project.Processes[name]
+	return conf, ok
+}
+
+func (p *ProjectRunner) setProcessConfig(name string, conf types.ProcessConfig) {
+	p.procConfMutex.Lock()
+	defer p.procConfMutex.Unlock()
+	p.project.Processes[name] = conf
+}
+
+func (p *ProjectRunner) deleteProcessConfig(name string) {
+	p.procConfMutex.Lock()
+	defer p.procConfMutex.Unlock()
+	delete(p.project.Processes, name)
+}
+
+// processConfigs returns a snapshot of the configured processes
+func (p *ProjectRunner) processConfigs() types.Processes {
+	p.procConfMutex.Lock()
+	defer p.procConfMutex.Unlock()
+	confs := make(types.Processes, len(p.project.Processes))
+	for name, conf := range p.project.Processes {
+		confs[name] = conf
+	}
+	return confs
+}
+
+func (p *ProjectRunner) setLogger(logger pclog.PcLogger) {
+	p.loggerMtx.Lock()
+	defer p.loggerMtx.Unlock()
+	p.logger = logger
+}
+
+func (p *ProjectRunner) getLogger() pclog.PcLogger {
+	p.loggerMtx.Lock()
+	defer p.loggerMtx.Unlock()
+	return p.logger
 }
 
 func (p *ProjectRunner) Run() error {
@@ -75,6 +127,7 @@ func (p *ProjectRunner) Run() error {
 	p.doneProcesses = make(map[string]*Process)
 	p.doneProcMutex.Unlock()
 	runOrder := []types.ProcessConfig{}
+	p.procConfMutex.Lock()
 	err := p.project.WithProcesses([]string{}, func(process types.ProcessConfig) error {
 		if process.IsDeferred() {
 			return nil
@@ -82,6 +135,7 @@ func (p *ProjectRunner) Run() error {
 		runOrder = append(runOrder, process)
 		return nil
 	})
+	p.procConfMutex.Unlock()
 	if err != nil {
 		return fmt.Errorf("failed to build project run order: %e", err)
 	}
@@ -89,11 +143,11 @@ func (p *ProjectRunner) Run() error {
 	for _, v := range runOrder {
 		nameOrder = append(nameOrder, v.ReplicaName)
 	}
-	p.logger = pclog.NewNilLogger()
 	if isStringDefined(p.project.LogLocation) {
-		p.logger = pclog.NewLogger()
-		p.logger.Open(p.project.LogLocation, p.project.LoggerConfig)
-		defer p.logger.Close()
+		projectLogger := pclog.NewLogger()
+		projectLogger.Open(p.project.LogLocation, p.project.LoggerConfig)
+		defer projectLogger.Close()
+		p.setLogger(projectLogger)
 	}
 	p.prepareEnvCmds()
 	//zerolog.SetGlobalLevel(zerolog.PanicLevel)
@@ -106,8 +160,11 @@ func (p *ProjectRunner) Run() error {
 	}
 	p.waitGroup.Wait()
 	log.Info().Msg("Project completed")
-	if p.exitCode != 0 {
-		err = &ExitError{p.exitCode}
+	p.exitCodeMtx.Lock()
+	exitCode := p.exitCode
+	p.exitCodeMtx.Unlock()
+	if exitCode != 0 {
+		err = &ExitError{exitCode}
 	}
 	return err
 }
@@ -124,7 +181,7 @@ func (p *ProjectRunner) runProcess(config *types.ProcessConfig) error {
 // shutdown has been requested: the shutdown only stops the processes that are registered
 // when it takes its snapshot, so anything registered later would outlive it.
 func (p *ProjectRunner) launchProcess(config *types.ProcessConfig, unlessShuttingDown bool) bool {
-	procLogger := p.logger
+	procLogger := p.getLogger()
 	if isStringDefined(config.LogLocation) {
 		procLogger = pclog.NewLogger()
 	}
@@ -135,6 +192,11 @@ func (p *ProjectRunner) launchProcess(config *types.ProcessConfig, unlessShuttin
 		procLog = pclog.NewLogBuffer(0)
 	}
 	procState, stateMtx := p.getProcessStateRef(config.ReplicaName)
+	if procState == nil {
+		// removed or renamed (scale, update) since the caller looked its configuration up
+		log.Error().Msgf("Error: process %s doesn't exist anymore", config.ReplicaName)
+		return false
+	}
 	isMain := config.Name == p.mainProcess
 	hasMain := p.mainProcess != ""
 	printLogs := !hasMain && !p.isTuiOn
@@ -163,7 +225,7 @@ func (p *ProjectRunner) launchProcess(config *types.ProcessConfig, unlessShuttin
 	go func(proc *Process) {
 		defer p.removeRunningProcess(proc)
 		defer p.waitGroup.Done()
-		if err = p.waitIfNeeded(proc.procConf); err != nil {
+		if err = p.waitIfNeeded(proc); err != nil {
 			log.Error().Msgf("Error: %s", err.Error())
 			log.Error().Msgf("Error: process %s won't run", proc.getName())
 			proc.wontRun()
@@ -178,37 +240,39 @@ func (p *ProjectRunner) launchProcess(config *types.ProcessConfig, unlessShuttin
 	return true
 }
 
-func (p *ProjectRunner) waitIfNeeded(process *types.ProcessConfig) error {
+func (p *ProjectRunner) waitIfNeeded(waiter *Process) error {
+	process := waiter.procConf
+	replicaName := waiter.getName()
 	for k := range process.DependsOn {
 		if proc := p.getDoneOrRunningProcess(k); proc != nil {
 			switch process.DependsOn[k].Condition {
 			case types.ProcessConditionCompleted:
 				proc.waitForCompletion()
 			case types.ProcessConditionCompletedSuccessfully:
-				log.Info().Msgf("%s is waiting for %s to complete successfully", process.ReplicaName, k)
+				log.Info().Msgf("%s is waiting for %s to complete successfully", replicaName, k)
 				exitCode := proc.waitForCompletion()
 				if exitCode != 0 {
 					return fmt.Errorf("process %s depended on %s to complete successfully, but it exited with status %d",
-						process.ReplicaName, k, exitCode)
+						replicaName, k, exitCode)
 				}
 			case types.ProcessConditionHealthy:
-				log.Info().Msgf("%s is waiting for %s to be healthy", process.ReplicaName, k)
+				log.Info().Msgf("%s is waiting for %s to be healthy", replicaName, k)
 				ready := proc.waitUntilReady()
 				if !ready {
-					return fmt.Errorf("process %s depended on %s to become ready, but it was terminated", process.ReplicaName, k)
+					return fmt.Errorf("process %s depended on %s to become ready, but it was terminated", replicaName, k)
 				}
 			case types.ProcessConditionLogReady:
-				log.Info().Msgf("%s is waiting for %s log line %s", process.ReplicaName, k, proc.procConf.ReadyLogLine)
+				log.Info().Msgf("%s is waiting for %s log line %s", replicaName, k, proc.procConf.ReadyLogLine)
 				ready := proc.waitUntilLogReady()
 				if !ready {
-					return fmt.Errorf("process %s depended on %s to become ready, but it was terminated", process.ReplicaName, k)
+					return fmt.Errorf("process %s depended on %s to become ready, but it was terminated", replicaName, k)
 				}
 			case types.ProcessConditionStarted:
-				log.Info().Msgf("%s is waiting for %s to start", process.ReplicaName, k)
+				log.Info().Msgf("%s is waiting for %s to start", replicaName, k)
 				proc.waitForStarted()
 			}
 		} else {
-			log.Error().Msgf("Error: process %s depends on %s, but it isn't running or completed", process.ReplicaName, k)
+			log.Error().Msgf("Error: process %s depends on %s, but it isn't running or completed", replicaName, k)
 		}
 
 	}
@@ -235,7 +299,9 @@ func (p *ProjectRunner) shutDownWithExitCode(exitCode int) {
 	if p.isShuttingDown.Load() {
 		return
 	}
+	p.exitCodeMtx.Lock()
 	p.exitCode = exitCode
+	p.exitCodeMtx.Unlock()
 	_ = p.ShutDownProject()
 }
 
@@ -244,7 +310,7 @@ func (p *ProjectRunner) initProcessStates() {
 	defer p.statesMutex.Unlock()
 	p.processStates = make(map[string]*types.ProcessState)
 	p.processStateLocks = make(map[string]*sync.Mutex)
-	for name, proc := range p.project.Processes {
+	for name, proc := range p.processConfigs() {
 		p.processStates[name] = types.NewProcessState(&proc)
 		p.processStateLocks[name] = &sync.Mutex{}
 	}
@@ -268,12 +334,14 @@ func (p *ProjectRunner) getProcessStateRef(name string) (*types.ProcessState, *s
 
 func (p *ProjectRunner) initProcessLogs() {
 	p.processLogs = make(map[string]*pclog.ProcessLogBuffer)
-	for _, proc := range p.project.Processes {
+	for _, proc := range p.processConfigs() {
 		p.initProcessLog(proc.ReplicaName)
 	}
 }
 
 func (p *ProjectRunner) initProcessLog(name string) {
+	p.logsMutex.Lock()
+	defer p.logsMutex.Unlock()
 	p.processLogs[name] = pclog.NewLogBuffer(p.project.LogLength)
 }
 
@@ -316,7 +384,7 @@ func (p *ProjectRunner) GetProcessesState() (*types.ProcessesState, error) {
 	states := &types.ProcessesState{
 		States: make([]types.ProcessState, 0),
 	}
-	for name := range p.project.Processes {
+	for name := range p.processConfigs() {
 		state, err := p.GetProcessState(name)
 		if err != nil {
 			return nil, err
@@ -328,7 +396,7 @@ func (p *ProjectRunner) GetProcessesState() (*types.ProcessesState, error) {
 }
 
 func (p *ProjectRunner) getProcessesStateData(filter filterFn) error {
-	for name := range p.project.Processes {
+	for name := range p.processConfigs() {
 		err := p.getProcessStateData(name, filter)
 		if err != nil {
 			return err
@@ -417,7 +485,7 @@ func (p *ProjectRunner) StartProcess(name string) error {
 		log.Error().Msgf("Process %s is already running", name)
 		return fmt.Errorf("process %s is already running", name)
 	}
-	if processConfig, ok := p.project.Processes[name]; ok {
+	if processConfig, ok := p.getProcessConfig(name); ok {
 		return p.runProcess(&processConfig)
 	}
 	return fmt.Errorf("no such process: %s", name)
@@ -427,7 +495,7 @@ func (p *ProjectRunner) StopProcess(name string) error {
 	log.Info().Msgf("Stopping %s", name)
 	proc := p.getRunningProcess(name)
 	if proc == nil {
-		if _, ok := p.project.Processes[name]; !ok {
+		if _, ok := p.getProcessConfig(name); !ok {
 			log.Error().Msgf("Process %s does not exist", name)
 			return fmt.Errorf("process %s does not exist", name)
 		}
@@ -476,7 +544,7 @@ func (p *ProjectRunner) RestartProcess(name string) error {
 		time.Sleep(proc.getBackoff())
 	}
 
-	if processConfig, ok := p.project.Processes[name]; ok {
+	if processConfig, ok := p.getProcessConfig(name); ok {
 		return p.runProcess(&processConfig)
 	}
 	return fmt.Errorf("no such process: %s", name)
@@ -485,7 +553,7 @@ func (p *ProjectRunner) RestartProcess(name string) error {
 func (p *ProjectRunner) GetProcessInfo(name string) (*types.ProcessConfig, error) {
 	p.runProcMutex.Lock()
 	defer p.runProcMutex.Unlock()
-	if processConfig, ok := p.project.Processes[name]; ok {
+	if processConfig, ok := p.getProcessConfig(name); ok {
 		return &processConfig, nil
 	} else {
 		return nil, fmt.Errorf("no such process: %s", name)
@@ -619,12 +687,14 @@ func (p *ProjectRunner) ShutDownProject() error {
 
 	shutdownOrder := []*Process{}
 	if p.isOrderedShutDown {
+		p.procConfMutex.Lock()
 		err := p.project.WithProcesses([]string{}, func(process types.ProcessConfig) error {
 			if runningProc, ok := p.runningProcesses[process.ReplicaName]; ok {
 				shutdownOrder = append(shutdownOrder, runningProc)
 			}
 			return nil
 		})
+		p.procConfMutex.Unlock()
 		if err != nil {
 			log.Error().Msgf("Failed to build project run order: %s", err.Error())
 		}
@@ -671,7 +741,10 @@ func (p *ProjectRunner) GetHostName() (string, error) {
 }
 
 func (p *ProjectRunner) getProcessLog(name string) (*pclog.ProcessLogBuffer, error) {
-	if procLogs, ok := p.processLogs[name]; ok {
+	p.logsMutex.Lock()
+	procLogs, ok := p.processLogs[name]
+	p.logsMutex.Unlock()
+	if ok {
 		return procLogs, nil
 	}
 	log.Error().Msgf("process %s doesn't exist", name)
@@ -719,7 +792,7 @@ func (p *ProjectRunner) ScaleProcess(name string, scale int) error {
 		log.Err(err).Msg("scale failed")
 		return err
 	}
-	if processConfig, ok := p.project.Processes[name]; ok {
+	if processConfig, ok := p.getProcessConfig(name); ok {
 		origScale := p.getCurrentReplicaCount(processConfig.Name)
 		scaleDelta := scale - origScale
 		if scaleDelta < 0 {
@@ -741,7 +814,7 @@ func (p *ProjectRunner) ScaleProcess(name string, scale int) error {
 
 func (p *ProjectRunner) getCurrentReplicaCount(name string) int {
 	counter := 0
-	for _, proc := range p.project.Processes {
+	for _, proc := range p.processConfigs() {
 		if proc.Name == name {
 			counter++
 		}
@@ -769,18 +842,16 @@ func (p *ProjectRunner) scaleUpProcess(proc types.ProcessConfig, toAdd, scale, o
 
 func (p *ProjectRunner) scaleDownProcess(name string, scale int) {
 	toRemove := []string{}
-	p.procConfMutex.Lock()
-	for _, proc := range p.project.Processes {
+	for _, proc := range p.processConfigs() {
 		if proc.Name == name {
 			if proc.ReplicaNum >= scale {
 				toRemove = append(toRemove, proc.ReplicaName)
 			} else {
 				proc.Replicas = scale
-				p.project.Processes[proc.ReplicaName] = proc
+				p.setProcessConfig(proc.ReplicaName, proc)
 			}
 		}
 	}
-	p.procConfMutex.Unlock()
 
 	wg := sync.WaitGroup{}
 	for _, name := range toRemove {
@@ -796,10 +867,10 @@ func (p *ProjectRunner) scaleDownProcess(name string, scale int) {
 }
 
 func (p *ProjectRunner) updateReplicaCount(name string, scale int) {
-	for _, proc := range p.project.Processes {
+	for _, proc := range p.processConfigs() {
 		if proc.Name == name {
 			proc.Replicas = scale
-			p.project.Processes[proc.ReplicaName] = proc
+			p.setProcessConfig(proc.ReplicaName, proc)
 			if proc.ReplicaName != proc.CalculateReplicaName() {
 				p.renameProcess(proc.ReplicaName, proc.CalculateReplicaName())
 			}
@@ -818,7 +889,9 @@ func (p *ProjectRunner) renameProcess(name string, newName string) {
 	}
 	logs := p.removeProcessLogs(name)
 	if logs != nil {
+		p.logsMutex.Lock()
 		p.processLogs[newName] = logs
+		p.logsMutex.Unlock()
 	}
 	if state, mtx := p.getProcessStateRef(name); state != nil {
 		mtx.Lock()
@@ -831,11 +904,11 @@ func (p *ProjectRunner) renameProcess(name string, newName string) {
 		p.processStateLocks[newName] = mtx
 		p.statesMutex.Unlock()
 	}
-	procConf, ok := p.project.Processes[name]
+	procConf, ok := p.getProcessConfig(name)
 	if ok {
-		delete(p.project.Processes, name)
+		p.deleteProcessConfig(name)
 		procConf.ReplicaName = newName
-		p.project.Processes[newName] = procConf
+		p.setProcessConfig(newName, procConf)
 	}
 }
 func (p *ProjectRunner) removeProcessLogs(name string) *pclog.ProcessLogBuffer {
@@ -851,9 +924,7 @@ func (p *ProjectRunner) removeProcessLogs(name string) *pclog.ProcessLogBuffer {
 
 func (p *ProjectRunner) removeProcess(name string) error {
 	p.removeProcessLogs(name)
-	p.procConfMutex.Lock()
-	delete(p.project.Processes, name)
-	p.procConfMutex.Unlock()
+	p.deleteProcessConfig(name)
 	running := p.getRunningProcess(name)
 	if running != nil {
 		err := running.shutDownNoRestart()
@@ -872,7 +943,7 @@ func (p *ProjectRunner) addProcessAndRun(proc types.ProcessConfig) {
 	p.processStates[proc.ReplicaName] = types.NewProcessState(&proc)
 	p.processStateLocks[proc.ReplicaName] = &sync.Mutex{}
 	p.statesMutex.Unlock()
-	p.project.Processes[proc.ReplicaName] = proc
+	p.setProcessConfig(proc.ReplicaName, proc)
 	p.initProcessLog(proc.ReplicaName)
 	if !proc.IsDeferred() {
 		_ = p.runProcess(&proc)
@@ -895,13 +966,13 @@ func (p *ProjectRunner) selectRunningProcesses(procList []string) error {
 		log.Err(err).Msgf("Failed select processes")
 		return err
 	}
-	for name, proc := range p.project.Processes {
+	for name, proc := range p.processConfigs() {
 		if _, ok := newProcMap[name]; !ok {
 			proc.Disabled = true
 		} else {
 			proc.Disabled = false
 		}
-		p.project.Processes[name] = proc
+		p.setProcessConfig(name, proc)
 	}
 	return nil
 }
@@ -910,7 +981,7 @@ func (p *ProjectRunner) selectRunningProcessesNoDeps(procList []string) error {
 	if len(procList) == 0 {
 		return nil
 	}
-	for name, proc := range p.project.Processes {
+	for name, proc := range p.processConfigs() {
 		found := false
 		for _, procName := range procList {
 			if proc.Name == procName {
@@ -924,7 +995,7 @@ func (p *ProjectRunner) selectRunningProcessesNoDeps(procList []string) error {
 			proc.DependsOn = types.DependsOnConfig{}
 			proc.Disabled = false
 		}
-		p.project.Processes[name] = proc
+		p.setProcessConfig(name, proc)
 	}
 
 	return nil
@@ -936,12 +1007,14 @@ func (p *ProjectRunner) GetLogLength() int {
 
 // GetDependenciesOrderNames used for testing
 func (p *ProjectRunner) GetDependenciesOrderNames() ([]string, error) {
+	p.procConfMutex.Lock()
+	defer p.procConfMutex.Unlock()
 	return p.project.GetDependenciesOrderNames()
 }
 
 func (p *ProjectRunner) GetProjectState(checkMem bool) (*types.ProjectState, error) {
 	runningProcesses := 0
-	for name := range p.project.Processes {
+	for name := range p.processConfigs() {
 		state, err := p.GetProcessState(name)
 		if err != nil {
 			return nil, err
@@ -950,12 +1023,16 @@ func (p *ProjectRunner) GetProjectState(checkMem bool) (*types.ProjectState, err
 			runningProcesses++
 		}
 	}
+	p.projectStateMtx.Lock()
+	defer p.projectStateMtx.Unlock()
 	p.projectState.RunningProcessNum = runningProcesses
 	p.projectState.UpTime = time.Since(p.projectState.StartTime)
 	if checkMem {
 		p.projectState.MemoryState = getMemoryUsage()
 	}
-	return p.projectState, nil
+	// a snapshot: the caller (REST handler, TUI) reads it while the next query updates it
+	snapshot := *p.projectState
+	return &snapshot, nil
 }
 
 func getMemoryUsage() *types.MemoryState {
@@ -1012,7 +1089,7 @@ func NewProjectRunner(opts *ProjectOpts) (*ProjectRunner, error) {
 	if err != nil {
 		return nil, err
 	}
-	runner.projectState.ProcessNum = len(runner.project.Processes)
+	runner.projectState.ProcessNum = len(runner.processConfigs())
 	runner.init()
 	runner.ctxApp, runner.cancelAppFn = context.WithCancel(context.Background())
 	return runner, nil
@@ -1023,7 +1100,7 @@ func (p *ProjectRunner) UpdateProject(project *types.Project) (map[string]string
 	delProcs := make(map[string]types.ProcessConfig)
 	updatedProcs := make(map[string]types.ProcessConfig)
 	for name, newProc := range project.Processes {
-		if currentProc, ok := p.project.Processes[name]; ok {
+		if currentProc, ok := p.getProcessConfig(name); ok {
 			equal := currentProc.Compare(&newProc)
 			if equal {
 				log.Debug().Msgf("Process %s is up to date", name)
@@ -1036,7 +1113,7 @@ func (p *ProjectRunner) UpdateProject(project *types.Project) (map[string]string
 			newProcs[name] = newProc
 		}
 	}
-	for name, currentProc := range p.project.Processes {
+	for name, currentProc := range p.processConfigs() {
 		if _, ok := project.Processes[name]; !ok {
 			log.Debug().Msgf("Process %s is deleted", name)
 			delProcs[name] = currentProc
@@ -1099,7 +1176,7 @@ func (p *ProjectRunner) UpdateProcess(updated *types.ProcessConfig) error {
 	validateProbes(updated.LivenessProbe)
 	validateProbes(updated.ReadinessProbe)
 	updated.AssignProcessExecutableAndArgs(p.project.ShellConfig, p.project.ShellConfig.ElevatedShellArg)
-	if currentProc, ok := p.project.Processes[updated.ReplicaName]; ok {
+	if currentProc, ok := p.getProcessConfig(updated.ReplicaName); ok {
 		equal := currentProc.Compare(updated)
 		if equal {
 			log.Debug().Msgf("Process %s is up to date", updated.Name)
